@@ -175,6 +175,7 @@ func (m *Monitors) viol(props []string, monitor, sig, format string, a ...any) {
 		}
 	}
 	if owned != "" && m.s.FailFast {
+		m.s.tracef("STATE %s", m.s.dumpNodes())
 		panic(&Violation{Prop: owned, Monitor: monitor, Sig: sig, Msg: msg, Step: m.s.Step})
 	}
 }
@@ -806,25 +807,27 @@ func (m *Monitors) stateChecks(n *Node, pre, post *raft.VerifState, c *Cause) {
 	startedCampaign := (post.State == raft.StatePreCandidate || post.State == raft.StateCandidate) &&
 		(pre.State != post.State || pre.Term != post.Term) && c.Kind != "start"
 	if startedCampaign {
-		// Known finding raft.stale_config_campaign: the node durably holds
-		// >= 2 conf-change entries that are committed (by others) but lie
-		// beyond its own commit index - it lost or never had the commit
-		// index - so the hasUnappliedConfChanges guard cannot see them and it
-		// campaigns with a configuration two or more changes behind.
+		// Known finding raft.stale_config_campaign: the node holds >= 2
+		// conf-change entries beyond its own commit index. Without a lost
+		// commit index that cannot happen (a leader appends a second change
+		// only after applying the first, and every append carrying the second
+		// also carries a commit index covering the first), so the earlier
+		// ones are committed - by others, or by an earlier incarnation of
+		// this node - but the hasUnappliedConfChanges guard cannot see them:
+		// the node campaigns, and if elected counts commit quorums, with a
+		// configuration two or more changes behind its own log.
 		unknown := 0
 		for j := post.Applied + 1; j <= post.LastIndex; j++ {
 			if j <= post.Commit {
 				continue
 			}
 			if e := n.cachedEntry(j); e != nil && isConfEntry(e) {
-				if cr := reg.committed[j]; cr != nil && cr.Term == e.GetTerm() {
-					unknown++
-				}
+				unknown++
 			}
 		}
 		if unknown >= 2 {
 			s.Stats.inc("finding.stale_config_campaign")
-			m.knownPrecursor("raft.stale_config_campaign", fmt.Sprintf("node %d campaigns (term %d) with config %s while its log holds %d committed conf changes beyond its commit index %d", n.ID, post.Term, confOfState(post), unknown, post.Commit))
+			m.knownPrecursor("raft.stale_config_campaign", fmt.Sprintf("node %d campaigns (term %d) with config %s while its log holds %d conf changes beyond its commit index %d", n.ID, post.Term, confOfState(post), unknown, post.Commit))
 		}
 		s.Stats.inc("campaign.started")
 		if post.Commit > post.Applied {
@@ -832,6 +835,16 @@ func (m *Monitors) stateChecks(n *Node, pre, post *raft.VerifState, c *Cause) {
 		}
 		if cfgJoint(post) {
 			s.Stats.inc("campaign.joint")
+			in := setOf(post.Voters)
+			only := 0
+			for _, id := range post.VotersOutgoing {
+				if !in[id] {
+					only++
+				}
+			}
+			if only >= 2 {
+				s.Stats.inc("campaign.joint_two_outgoing_only")
+			}
 		}
 		if m.On["C10"] {
 			for j := post.Applied + 1; j <= post.Commit; j++ {
